@@ -150,7 +150,7 @@ def lb2(F, R):
             R.bad("LB2", "LB2/Label::from_str/overlong-not-rejected", b.where(site),
                   "a text longer than 8 characters is not rejected with Err on the path that refuses to store the 9th character",
                   detail)
-        elif [a for a in ads if a != "enumerate"] or not src_ok:
+        elif [a for a in ads if a not in ("enumerate", "collect")] or not src_ok:
             R.bad("LB2", "LB2/Label::from_str/chars-not-all-visited", b.where(site),
                   "the characters stored are not all characters of the text (adaptors %s): an over-long text is truncated "
                   "instead of rejected, or characters are dropped" % ads, detail)
